@@ -34,4 +34,18 @@ def sharesForTokens (v : Val) (available amt : Int) : Int :=
   let s := sharesFromTokens v amt
   if unbondTokens v s < amt ∧ s < available then min (s + 1) available else s
 
+/-- `Validator.InvalidExRate`: no tokens left while delegator shares remain (a validator slashed to zero); the staking module's
+`Delegate` refuses exactly these validators (`ErrDelegatorShareExRateInvalid`) -/
+def invalidExRate (v : Val) : Bool := v.tokens == 0 && decide (v.shares > 0)
+
+/-- the validator `ReturnSlashedTokens` re-delegates an escrow entry to: the entry's own validator when it still exists and accepts
+delegations, otherwise the first bonded validator -/
+def returnTarget (orig : Option Val) (fallback : Val) : Val :=
+  match orig with
+  | none => fallback
+  | some v => if invalidExRate v then fallback else v
+
+/-- before the fix: the entry's validator whenever it exists -/
+def returnTargetOld (orig : Option Val) (fallback : Val) : Val := orig.getD fallback
+
 end Layer.Unbond
